@@ -9,6 +9,10 @@ use crate::spec::*;
 
 type Res = Result<SessionResult, WorkerError>;
 
+pub fn died_pub(property: &str, e: &WorkerError, session: &SessionSpec, counts: bool) -> Result<Vec<Violation>, String> {
+    died(property, e, session, counts)
+}
+
 pub fn prog_desc(w: &WorldSpec, ix: usize) -> String {
     let p = &w.programs[ix];
     let ro = if p.read_only.is_empty() { String::new() } else { format!("# read_only: {:?}\n", p.read_only) };
@@ -67,7 +71,7 @@ fn hits_root_probe(f: &FaultPlan) -> bool {
     f.at.contains(&0) || f.none_at.contains(&0) || f.burst.iter().any(|(s, l)| *s == 0 && *l > 0)
 }
 
-pub fn judge(name: &str, session: &SessionSpec, res: &Res, reference: Option<&SessionSpec>, ref_res: Option<&Res>) -> Result<Vec<Violation>, String> {
+pub fn judge(name: &str, session: &SessionSpec, res: &Res, reference: &[SessionSpec], ref_res: &[Res]) -> Result<Vec<Violation>, String> {
     match name {
         "c17" => c17(session, res),
         "c16" => monitor_judge("C16", "c16", "uncovered-target-operation", session, res),
